@@ -53,8 +53,50 @@ def classify(code):
             res = 'anchor'          # per-version accessors, BASE_DATATYPES construction, module-level code
         elif (tail, code.co_name) in ANCHOR_FUNCS or (tail, getattr(code, 'co_qualname', '')) in ANCHOR_QUALNAMES:
             res = 'anchor'
+        elif tail in ('hl7apy/factories.py', 'hl7apy/__init__.py'):
+            res = 'anchor'          # the modules owning the process-wide defaults, the library registry and the factories
+        elif _touches_shared_state(code):
+            res = 'anchor'          # any function reading/writing a module-level or cache-like class-level container
     _file_class[key] = res
     return res or None
+
+
+_shared_names = {}
+
+
+def _shared_names_of(filename):
+    """names through which code of this module can reach process-wide mutable state: module-level dict/list/set objects,
+    and class-level ones whose name looks like a cache or registry (leading underscore or upper case)"""
+    mod = None
+    for m in list(sys.modules.values()):
+        if getattr(m, '__file__', None) == filename:
+            mod = m
+            break
+    names = set()
+    if mod is not None:
+        for n, v in list(vars(mod).items()):
+            if isinstance(v, (dict, list, set, bytearray)) and not n.startswith('__'):
+                names.add(n)
+            elif isinstance(v, type) and getattr(v, '__module__', None) == mod.__name__:
+                for a, av in list(vars(v).items()):
+                    if isinstance(av, (dict, list, set)) and (a.startswith('_') or a.isupper()) and not a.startswith('__'):
+                        names.add(a)
+    return names, mod is not None
+
+
+def _touches_shared_state(code):
+    import dis
+    try:
+        for ins in dis.get_instructions(code):
+            if ins.opname in ('STORE_GLOBAL', 'DELETE_GLOBAL'):
+                return True
+    except Exception:
+        pass
+    names, found = _shared_names.get(code.co_filename, (None, False))
+    if names is None or not found:
+        names, found = _shared_names_of(code.co_filename)
+        _shared_names[code.co_filename] = (names, found)
+    return bool(names & set(code.co_names))
 
 
 _active = {'cb': None}
